@@ -114,7 +114,7 @@ class Polynomial(Expression):
     __nonzero__ = __bool__
 
     def __eq__(self, other):
-        return (isinstance(other, Polynomial)
+        return (type(other) is type(self)
                 and (self.Base == other.Base)
                 and (self.Data == other.Data))
 
